@@ -14,7 +14,7 @@ PROP = 'C11'
 TRACE_MODULE = 'C11Trace.tla'
 RULE = ('generic: every (tree, pruning, wrapper) state of the directed pruning machine (TLC) and random DAGs with random prunings, each '
         'as a genuine proof plus forgeries {wrong expected hash, flipped data bit of an unpruned cell, dropped/duplicated/swapped '
-        'reference, substituted pruned hash, altered pruned depth, not a Merkle cell, altered stored hash}; header: synthetic blocks '
+        'reference, substituted pruned hash, altered pruned depth, not a Merkle cell, altered stored hash, altered cell arriving in a bag of cells that stores the original hash next to it}; header: synthetic blocks '
         'with every subset of children pruned; account: shard states with 1-3 accounts, genuine + {wrong account cell, pruned-branch as '
         'account, absent address, wrong block, wrong state, swapped roots, single root}; distinct = distinct (kind, proof root hash)')
 ASSUMPTIONS = ['TonProof.CheckProof / CheckBlockHeader / AccountAccepts decide acceptance from the recorded cells with TLC-computed SHA-256; '
@@ -53,6 +53,55 @@ def run_proof(heap, want, label, genuine):
     except Exception as e:
         rec['out'] = {'err': type(e).__name__}
     return rec
+
+
+def run_proof_obj(root, want, label, genuine):
+    """the proof as a live object (e.g. as a parser returned it): recorded by its content, judged like every other proof"""
+    heap, roots, _ = ck.project([root])
+    rec = {'op': 'proof', 'label': label, 'genuine': int(genuine), 'cells': heap, 'proof': roots[0], 'want': list(want)}
+    try:
+        check_proof(root, bytes(want))
+        rec['out'] = {'ok': 1}
+    except Exception as e:
+        rec['out'] = {'err': type(e).__name__}
+    return rec
+
+
+def stored_hash_forgery(rng, body, root_idx, orig_hash):
+    """a proof that arrives as a bag of cells: one unpruned cell is altered and written in the with-hashes form, carrying the hashes
+    and depths of the ORIGINAL cell next to it (prover-supplied bytes: a parser that believes them lets the altered tree through)"""
+    import bockit as bk
+    base = body[:root_idx]
+    reach, todo = set(), [root_idx]
+    while todo:
+        x = todo.pop()
+        if x not in reach:
+            reach.add(x)
+            todo += base[x - 1]['r']
+    ords = [k for k in range(root_idx) if base[k]['t'] == 0 and (k + 1) in reach]
+    if not ords:
+        return None
+    k = rng.choice(ords)
+    m = [dict(c) for c in base]
+    c = m[k]
+    if c['n'] == 0:
+        c['n'], c['y'] = 1, [128]
+    else:
+        y = list(c['y'])
+        b = rng.randrange(c['n'])
+        y[b // 8] ^= 0x80 >> (b % 8)
+        c['y'] = y
+    try:
+        go = ck.build_heap(base, 'ctor')
+        fo = ck.build_heap(m, 'ctor')
+        gp = ck.build_heap(base + [mproof_abs(go[root_idx - 1], root_idx)], 'ctor')[-1]
+        # the forged proof cell keeps the ORIGINAL hash and depth in its data (that is what the verifier compares with)
+        fp = ck.build_heap(m + [mproof_abs(go[root_idx - 1], root_idx)], 'ctor')
+        bag = bk.emit_with_hashes(fp[-1], 'claimed', claim={id(fp[k]): go[k]})
+        parsed = Cell.one_from_boc(bag)
+    except Exception:
+        return None
+    return run_proof_obj(parsed, orig_hash, 'forged_data_bit_with_original_hash_stored_next_to_it', False)
 
 
 def forgeries(rng, body, root_idx, orig_hash):
@@ -496,6 +545,9 @@ def generate(tier, seed, ctx):
             r = run_proof(heap, want, label, genuine)
             if r:
                 out.append(r)
+        r = stored_hash_forgery(rng, st['heap'], st['root'], orig_hash)
+        if r:
+            out.append(r)
     # random DAGs with random prunings
     from drivers.c02 import random_pruned_case
     for _ in range(25 if q else 1500):
@@ -510,6 +562,9 @@ def generate(tier, seed, ctx):
             r = run_proof(h2, want, label, genuine)
             if r:
                 out.append(r)
+        r = stored_hash_forgery(rng, heap[:root_t], root_t, orig_hash)
+        if r:
+            out.append(r)
     for _ in range(1 if q else 20):
         out += header_records(rng)
     for _ in range(3 if q else 60):
